@@ -111,10 +111,80 @@ def _is_const_key(kt):
         (z3.is_string_value(kt.arg(0)) or z3.is_int_value(kt.arg(0)))
 
 
+def free_consts(t):
+    """constants named FREE!... : universally quantified variables of a contract clause, kept free in the proof"""
+    out, seen, stack = {}, set(), [t]
+    while stack:
+        x = stack.pop()
+        if x.get_id() in seen:
+            continue
+        seen.add(x.get_id())
+        if z3.is_quantifier(x):
+            stack.append(x.body())
+        elif z3.is_app(x):
+            if x.num_args() == 0 and x.decl().kind() == z3.Z3_OP_UNINTERPRETED and x.decl().name().startswith("FREE!"):
+                out[x.decl().name()] = x
+            stack.extend(x.children())
+    return list(out.values())
+
+
+def close_free(f):
+    """the universal closure over FREE! constants (what a caller may assume)"""
+    fc = free_consts(f)
+    return z3.ForAll(fc, f) if fc else f
+
+
+def instantiate(hyps, goal):
+    """engine rule: universally quantified hypotheses with one bound variable are instantiated at the free
+    constants of the goal (same sort).  Pure instantiation: sound."""
+    fc = free_consts(goal)
+    if not fc:
+        return []
+    out = []
+    for q in hyps:
+        if z3.is_quantifier(q) and q.is_forall() and q.num_vars() == 1:
+            for cst in fc:
+                if cst.sort() == q.var_sort(0):
+                    out.append(z3.substitute_vars(q.body(), cst))
+    return out
+
+
+def strip_quantifiers(t):
+    """replace quantified sub-formulas in positive position of a hypothesis by True (weakening)"""
+    if z3.is_quantifier(t):
+        return z3.BoolVal(True)
+    if z3.is_app(t) and t.sort() == z3.BoolSort():
+        k = t.decl().kind()
+        if k == z3.Z3_OP_AND:
+            return z3.And(*[strip_quantifiers(c) for c in t.children()])
+        if k == z3.Z3_OP_OR:
+            return z3.Or(*[strip_quantifiers(c) for c in t.children()])
+        if k == z3.Z3_OP_IMPLIES and not _has_quantifier(t.arg(0)):
+            return z3.Implies(t.arg(0), strip_quantifiers(t.arg(1)))
+        if _has_quantifier(t):
+            return z3.BoolVal(True)
+    return t
+
+
+def _has_quantifier(t):
+    stack, seen = [t], set()
+    while stack:
+        x = stack.pop()
+        if x.get_id() in seen:
+            continue
+        seen.add(x.get_id())
+        if z3.is_quantifier(x):
+            return True
+        if z3.is_app(x):
+            stack.extend(x.children())
+    return False
+
+
 def check_valid(hyps, goal, timeout_ms=None, want_model=True):
     """is (hyps => goal) valid?"""
     timeout_ms = timeout_ms or QUICK_MS
     t0 = time.time()
+    hyps = list(hyps) + instantiate(hyps, goal)
     s = z3.Solver()
     s.set("timeout", timeout_ms)
     s.add(*base_facts())
@@ -128,6 +198,22 @@ def check_valid(hyps, goal, timeout_ms=None, want_model=True):
     if r == z3.sat:
         return Verdict("refuted", "z3-%s(api)" % z3.get_version_string(), dt, s.model())
     reason = s.reason_unknown()
+    # quantifier-free weakening: quantified hypotheses are replaced by their instances at the goal's free constants
+    # (already added above) and dropped.  unsat of the weaker hypothesis set is still a proof; sat gives a
+    # candidate counter-model that only the replay on the real code can confirm.
+    qf = [strip_quantifiers(h) for h in hyps if not z3.is_quantifier(h)]
+    s2 = z3.Solver()
+    s2.set("timeout", timeout_ms)
+    s2.add(*base_facts())
+    s2.add(*qf)
+    s2.add(z3.Not(goal))
+    s2.add(*wf_ties(qf + [goal]))
+    r2 = s2.check()
+    if r2 == z3.unsat:
+        return Verdict("discharged", "z3-%s(api, quantifier-free weakening)" % z3.get_version_string(), time.time() - t0)
+    if r2 == z3.sat and not _has_quantifier(goal):
+        return Verdict("refuted", "z3-%s(api, quantifier-free weakening)" % z3.get_version_string(), time.time() - t0,
+                       s2.model(), reason="full query: unknown (%s); counter-model of the quantifier-free weakening" % reason)
     # second back end on the exported formula
     smt2 = s.to_smt2()
     v2 = _cli_z3(smt2, timeout_ms)
